@@ -38,9 +38,17 @@ def run(ctx):
         out, q2 = fmt.load(p.read())
         if q2 is not None:
             evs.append(fmt.roundtrip_event(q2, spec, w=True))
+        # files carrying controller values beyond the nominal ranges in and behind the MetaModule's section (the reader
+        # is lenient for the whole file, also after the embedded project was read): judged by the spec's decoder
+        if i % 3 == 0:
+            sib = api.m.Amplifier()
+            p.attach_module(sib)
+            base = fmt.tlv.to_json_nested(p.read())
+            for sec, _ in fmt.ranged_cval_sections(base, spec):
+                evs.append(fmt.load_event(fmt.tlv.from_json_nested(fmt.out_of_range_variant(base, sec, rnd)), spec))
         for j, ev in enumerate(evs):
             traces.append({"id": "mm%d.%d" % (i, j), "events": [ev]})
-            ctx.count_case((i, j, json.dumps(ev["orig"], sort_keys=True)), nontrivial=nontriv)
+            ctx.count_case((i, j, json.dumps(ev.get("orig", ev.get("obj")), sort_keys=True)), nontrivial=nontriv)
     cans = []
     def canary(name, pred, mut):
         src = next((t for t in traces if pred(t["events"][0])), None)
@@ -54,12 +62,12 @@ def run(ctx):
     def mmod(e):
         o = e["back"]
         return o["module"][0] if o["kind"] == "synth" else o["modules"][1]
-    canary("udval", lambda e: e["back"].get("kind") == "synth" and mmod(e)["payload"]["attached"][0] == 1,
+    canary("udval", lambda e: e.get("back", {}).get("kind") == "synth" and mmod(e)["payload"]["attached"][0] == 1,
            lambda e: mmod(e)["payload"]["udvals"].__setitem__(0, mmod(e)["payload"]["udvals"][0] + 1))
-    canary("label", lambda e: e["back"].get("kind") == "synth" and mmod(e)["payload"]["attached"][0] == 1,
+    canary("label", lambda e: e.get("back", {}).get("kind") == "synth" and mmod(e)["payload"]["attached"][0] == 1,
            lambda e: mmod(e)["payload"]["labels"].__setitem__(0, [[120, 121]] if mmod(e)["payload"]["labels"][0] != [[120, 121]] else []))
-    canary("embedded", lambda e: e["back"].get("kind") == "synth", lambda e: mmod(e)["payload"]["project"]["proj"].__setitem__("mxof", mmod(e)["payload"]["project"]["proj"]["mxof"] + 1))
-    canary("mapping", lambda e: e["back"].get("kind") == "synth", lambda e: mmod(e)["payload"]["mappings"][95].__setitem__(0, 7))
+    canary("embedded", lambda e: e.get("back", {}).get("kind") == "synth", lambda e: mmod(e)["payload"]["project"]["proj"].__setitem__("mxof", mmod(e)["payload"]["project"]["proj"]["mxof"] + 1))
+    canary("mapping", lambda e: e.get("back", {}).get("kind") == "synth", lambda e: mmod(e)["payload"]["mappings"][95].__setitem__(0, 7))
     ev0 = traces[0]["events"][0]
     pl = ev0["orig"]["module"][0]["payload"]
     ctx.sample({"id": traces[0]["id"], "n": sum(pl["attached"]), "mappings_head": pl["mappings"][:4], "labels_head": pl["labels"][:4],
